@@ -369,4 +369,55 @@ example : loadPytket ⟨[], [], [], [], 0⟩ true none [] = .ok (⟨[], .none⟩
 example : parseStub classicalCirc ⟨[], some ⟨[], .tuple [.scalar .bool, .scalar .bool, .scalar .bool]⟩⟩ =
     .accepted ⟨[], .tuple [.scalar .bool, .scalar .bool, .scalar .bool]⟩ := by decide
 
+/-! ## Histories
+
+A session is any list of events: loads (each with the identity of the circuit object and the
+state of that object *at that moment*) interleaved with anything else (creating, extending,
+deleting circuit objects, identity reuse).  Full statement: the `k`-th load of *every* session
+yields exactly what compiling its own snapshot yields — whatever was loaded before, under
+whatever object identities, and whatever happens afterwards.  A conversion cache keyed by object
+identity (`runSession true`) falsifies this; the counterexample is below. -/
+
+/-- **C26 (history)**: the result of a load depends only on the circuit as it is at that load. -/
+theorem load_depends_only_on_current_circuit (before after : List Event) (obj : Nat)
+    (s : Snapshot) :
+    (session (before ++ .load obj s :: after))[loadsIn before]? = some (compileSnapshot s) := by
+  unfold session
+  rw [runSession_false, List.filterMap_append, List.getElem?_append_right (by rw [length_filterMap_loads]),
+    length_filterMap_loads]
+  simp
+
+/-- **C26 (history independence)**: two sessions with arbitrary different pasts (and different
+    object identities) that end with a load of circuits in the same state end with the same result. -/
+theorem history_independent (h₁ h₂ : List Event) (o₁ o₂ : Nat) (s : Snapshot) :
+    (session (h₁ ++ [.load o₁ s])).getLast? = (session (h₂ ++ [.load o₂ s])).getLast? := by
+  unfold session
+  simp [runSession_false, List.filterMap_append]
+
+/-- and a session produces exactly one result per load -/
+theorem one_result_per_load (evs : List Event) : (session evs).length = loadsIn evs := by
+  unfold session; rw [runSession_false, length_filterMap_loads]
+
+/-! Non-vacuity and the counterexample: one circuit object (identity 7) is loaded with a single
+    `H`, extended by a measurement into a new bit, and loaded again.  The code's session gives the
+    second load its own shape and content; a cache keyed by identity gives it the stale content
+    `H:1` and stale port types (so the declared bool result is not even wired). -/
+def stage1 : Snapshot :=
+  ⟨⟨[⟨"q", [0]⟩], [], [⟨"q", 1⟩], [], 0⟩, false, ⟨none, [.qubit], ["H:1"]⟩⟩
+def stage2 : Snapshot :=
+  ⟨⟨[⟨"q", [0]⟩], [⟨"c", [0]⟩], [⟨"q", 1⟩], [⟨"c", 1⟩], 0⟩, false,
+    ⟨none, [.qubit, .bool], ["H:1", "Measure:1"]⟩⟩
+
+example : session [.load 7 stage1, .other, .load 7 stage2] =
+    [.ok (⟨[⟨.scalar .qubit, .inout⟩], .none⟩, ⟨[.port (.input 0)], [.wire (.call 0)]⟩, ["H:1"]),
+     .ok (⟨[⟨.scalar .qubit, .inout⟩], .leaf (.scalar .bool)⟩,
+          ⟨[.port (.input 0), .falseConst], [.wire (.opaque 1), .wire (.call 0)]⟩,
+          ["H:1", "Measure:1"])] := by decide
+
+example : (runSession true [] [.load 7 stage1, .other, .load 7 stage2])[1]? ≠
+    some (compileSnapshot stage2) := by decide
+example : (runSession true [] [.load 7 stage1, .other, .load 7 stage2])[1]? =
+    some (.ok (⟨[⟨.scalar .qubit, .inout⟩], .leaf (.scalar .bool)⟩,
+          ⟨[.port (.input 0), .falseConst], [.wire (.call 0)]⟩, ["H:1"])) := by decide
+
 end GuppyVerif.Pytket
